@@ -620,7 +620,7 @@ def sequence_inputs(tier, seed):
                 for k in range(1, n + 1):
                     if n % k == 0:
                         inputs.append(([(e, False) for e in S], k))
-        plan = [(5, (5, 2), 150), (6, (2, 3, 6), 600), (7, (7,), 50), (8, (2, 4), 500), (9, (3,), 150), (10, (5,), 40), (10, (2,), 10)]
+        plan = [(5, (5, 2), 150), (6, (2, 3, 6), 600), (7, (7,), 50), (8, (2, 4), 400), (9, (3,), 120), (10, (5,), 40), (10, (2,), 6)]
         # all X-type / all Z-type ancilla-data edges (12 each): the only 12-lists cheap enough for the library's recursion
         for kind in ("X", "Z"):
             L = [(EI[frozenset((QI[a], QI[d]))], False) for a, ds in sorted(STABILISERS.items()) if a[0] == kind for d in ds]
@@ -674,7 +674,10 @@ def run(tier, seed, out_path, procs=16):
     total_n, info, fails, samples = Counter(), Counter(), {}, {"park_overlap": [], "seq": []}
     # cheap whole-table clauses in the parent
     for tag, fnc in (("order", check_order), ("layout", check_layout), ("moving", check_moving)):
-        n, fl = fnc()
+        try:
+            n, fl = fnc()
+        except Exception as ex:      # library code raised outside the per-input guards: a failure of that clause, not of the harness
+            n, fl = 1, [F("%s:raises-%s" % (tag, type(ex).__name__), "the %s tables / predicates can be evaluated" % tag, tag, {}, repr(ex), None, {"check": tag}, (0,))]
         total_n[tag] += n
         for f in fl:
             if f["key"] not in fails or f["_sort"] < fails[f["key"]]["_sort"]:
@@ -735,7 +738,7 @@ def run(tier, seed, out_path, procs=16):
          "ok": True},
         {"assumption": "the generator is also complete and duplicate-free (NOT part of the statement): emitted set == spec-valid partitions into blocks of exactly subgroup_size",
          "ok": info["seq_missing"] == 0 and info["seq_duplicates"] == 0, "missing": info["seq_missing"], "duplicates": info["seq_duplicates"],
-         "spec_valid_partitions": info["seq_expected"], "example": samples["seq"][:1]},
+         "spec_valid_partitions": info["seq_expected"], "example": sorted(samples["seq"], key=lambda x: (len(x["edges"]), json.dumps(x)))[:1]},
         {"assumption": "each single direction 'h allowed by the constraints of g' already equals accept({g,h}) (the statement only fixes the conjunction of both directions)",
          "ok": info["one_direction_asymmetries"] == 0, "asymmetric_ordered_pairs": info["one_direction_asymmetries"]},
         {"assumption": "outside the statement's domain (gate sets sharing a qubit can never be simultaneous): get_requires_parking also equals park(q,S) there",
@@ -747,12 +750,18 @@ def run(tier, seed, out_path, procs=16):
     for k, v in info.items():
         if k.startswith("seq_skipped:"):
             res.skipped[k[len("seq_skipped:"):]] = v
+    def safe(fn):
+        try:
+            return fn()
+        except Exception as ex:      # a raising predicate is already recorded as a failure of its clause
+            return "raised %r" % (ex,)
+    c = ctx()
+    e_d4z1, e_d5x2, e_d1z1 = (EI[frozenset((QI[a], QI[b]))] for a, b in (("D4", "Z1"), ("D5", "X2"), ("D1", "Z1")))
     res.samples = [
         {"input": {"edges": [["D4", "Z1"], ["D5", "X2"]]}, "checked": "accept: real %s / spec %s (both HIGH-MID gates operate at MID; Z1 ~ D5 are neighbours at MID)"
-         % (bool(ctx().Gen.get_mutually_allowed([ctx().gate(EI[frozenset((QI['D4'], QI['Z1']))]), ctx().gate(EI[frozenset((QI['D5'], QI['X2']))])], ctx().conn)),
-            spec_accept([EI[frozenset((QI['D4'], QI['Z1']))], EI[frozenset((QI['D5'], QI['X2']))]]))},
+         % (safe(lambda: bool(c.Gen.get_mutually_allowed([c.gate(e_d4z1), c.gate(e_d5x2)], c.conn))), spec_accept([e_d4z1, e_d5x2]))},
         {"input": {"edges": [["D1", "Z1"]], "qubit": "D2"}, "checked": "park: real %s / spec %s (Z1 moves down to LOW where neighbour D2 idles)"
-         % (bool(ctx().get_requires_parking(ctx().Q[QI['D2']], [ctx().edge(EI[frozenset((QI['D1'], QI['Z1']))])], ctx().conn)), spec_park(QI['D2'], [EI[frozenset((QI['D1'], QI['Z1']))]]))},
+         % (safe(lambda: bool(c.get_requires_parking(c.Q[QI['D2']], [c.edge(e_d1z1)], c.conn))), spec_park(QI['D2'], [e_d1z1]))},
         {"input": {"edges": TEST_CHAIN, "subgroup_size": 2}, "checked": "every emitted sequence: gates == requested multiset, every step accept(), parkings == spec"},
         {"counts": {k: int(v) for k, v in sorted(info.items())}},
     ]
